@@ -210,6 +210,8 @@ def run(ctx):
         ctx.fail_input('strict_pd', name + ' accepts a singular prior', dict(estimator=name, prior=S.tolist()))
     # ---- 5. transformation initialisers
     y = data['y']
+    if rng.random() < 0.5:
+      y = fits.encode_labels(rng, data)['y']        # the selection rule counts classes, whatever their names
     ncls = data['n_classes']
     for nc in range(1, d + 1):
       oc, L = outcome(lambda: _initialize_components(nc, X, y, init='identity'))
